@@ -35,7 +35,7 @@ def build_step(R, H, with_inv=True, validate=1):
     sp = Step()
     sp.ctx, sp.st, sp.act, sp.ns, sp.ts, sp.H = ctx, st, act, ns, ts, H
     sp.inv = inv
-    sp.A = list(pre) + [v.z() for _, v in inv if not (v.conc and bool(v))] + apre + ctx.assumptions
+    sp.A = list(pre) + assumed_inv(R, H, ctx, inv, list(pre) + apre) + apre + ctx.assumptions
     for n_, v in inv:
         if v.conc and not bool(v):
             R.harness_errors.append(f"{R.job}: pre-state invariant conjunct '{n_}' is constant False")
@@ -57,6 +57,36 @@ def build_step(R, H, with_inv=True, validate=1):
     return sp
 
 
+def assumed_inv(R, H, ctx, inv, pre):
+    """z3 assumptions for the pre-state invariant.  Conjuncts named "cached ..." say that a cached field of the state (an action
+    mask) has the form given by the harness' independent RULE.  The pre-state's cached field is never a free variable: sym_state
+    builds it by executing the environment's OWN function symbolically on the rest of the state (or from the rule itself), so
+    the conjunct is a CONSEQUENCE of the construction whenever the code's function agrees with the rule - and assuming it when it
+    does not would assume away exactly the states in which a wrong mask misleads `step` (a seeded Maze/Snake mask change then
+    stayed invisible to C05).  Therefore each such conjunct is first discharged as a lemma from the other assumptions; it is kept as
+    an assumption only when the lemma is proved (it then merely hands the solver the simpler rule form), and dropped otherwise."""
+    plain = [(n, v) for n, v in inv if not n.startswith("cached")]
+    cached = [(n, v) for n, v in inv if n.startswith("cached")]
+    out = [v.z() for _, v in plain if not (v.conc and bool(v))]
+    if not cached:
+        return out
+    base = list(pre) + out + list(ctx.assumptions)
+    kept = 0
+    for n, v in cached:
+        if v.conc:
+            if not bool(v):
+                R.note(f"{H.cfg}: pre-state lemma '{n}' is constant False: not assumed")
+            continue
+        r, _, dt = R._solve(base + [z3.Not(v.z())], timeout_s=min(45, R.qtimeout_s))
+        R.obl.append({"name": "lemma(pre-state): " + n, "result": r, "solver_s": round(dt, 3), "kind": "lemma"})
+        if r == "unsat":
+            out.append(v.z())
+            kept += 1
+        else:
+            R.note(f"{H.cfg}: pre-state lemma '{n}' not proved ({r}): the code's cached field is NOT assumed to follow the rule in this job")
+    return out
+
+
 def _brief(tree):
     out = {}
     for p, x in jax.tree_util.tree_leaves_with_path(tree):
@@ -69,12 +99,7 @@ def _brief(tree):
 def step_replay(sp, obl_fn, name):
     H = sp.H
 
-    def replay(model):
-        s_np, a_np = S.model_tree(model, sp.st), S.model_sv(model, sp.act)
-        if hasattr(H, "replay_state"):
-            # optional hook (DESIGN 1.5, random draws): the harness swaps the model's PRNG key for a REAL key whose
-            # real draws equal the model's stub draws (e.g. Tetris' next piece), so that the replay exercises the same case
-            s_np = H.replay_state(model, sp, s_np, a_np)
+    def once(s_np, a_np):
         ns, ts = C.real_step(H.env, s_np, a_np)
         cs, ca, cns, cts = S.conc_tree(s_np), SV(np.asarray(a_np), sp.act.dtype), S.conc_tree(ns), S.conc_tree(ts)
         vals = dict(obl_fn(cs, ca, cns, cts))
@@ -84,6 +109,24 @@ def step_replay(sp, obl_fn, name):
                   "next_state": _brief(ns), "step_type": int(ts.step_type), "reward": np.asarray(ts.reward).tolist(),
                   "discount": np.asarray(ts.discount).tolist()}
         return (not holds), detail
+
+    def replay(model):
+        s_np, a_np = S.model_tree(model, sp.st), S.model_sv(model, sp.act)
+        if hasattr(H, "replay_state"):
+            # optional hook (DESIGN 1.5, random draws): the harness swaps the model's PRNG key for a REAL key whose
+            # real draws equal the model's stub draws (e.g. Tetris' next piece), so that the replay exercises the same case
+            s_np = H.replay_state(model, sp, s_np, a_np)
+        bad, detail = once(s_np, a_np)
+        if bad:
+            return True, detail
+        # second stage (DESIGN 1.5): the violation may hinge on a random draw that the model's own key does not realise on the
+        # real sampler -> same state and action, real keys 0..N-1; the first REAL execution that violates the obligation is reported
+        for i, s_alt in C.key_variants(s_np, int(__import__("os").environ.get("VERIF_STEP_KEYS", "256"))):
+            bad2, d2 = once(s_alt, a_np)
+            if bad2:
+                d2["replay_mode"] = f"real-key search: state.key = PRNGKey({i})"
+                return True, d2
+        return False, detail
     return replay
 
 
